@@ -18,7 +18,8 @@ RULE = ("(a) ALL 16 subsets of the four base-class callbacks (classes built dyna
         "order; once per Solve with the returned solution), and the trial log and result must equal the listener-free run; (b) the console listener in its 3 modes (also refined by a user subclass) and "
         "(c) the four painters in every documented mode (1-D painters on N=1, section/N-D painters on N=2,3), alone and combined with the console listener, with and "
         "without refinement: same non-interference comparison (painter probes of the objective are separated from trials by a forwarding proxy), and the console "
-        "listener's final block is parsed from captured stdout and compared with the Solution fields. (d) the repository's shipped example scripts are executed twice, as written and with every listener they attach left out: identical trial logs and results. Non-trivial: every case; distinct = (kind, N, subset/mode, batching, seed index).")
+        "listener's final block is parsed from captured stdout and compared with the Solution fields. (d) the repository's shipped example scripts are executed twice, as written and with every listener they attach left out: identical trial logs and results. Non-trivial: every case; distinct = (kind, N, subset/mode, batching, seed index)."
+       ' A quarter of the scenarios fill in SolverParameters.startPoint; a quarter of the console cases run on boxes of nanometre-sized coordinates (the printed point is compared numerically).')
 ASSUMPTIONS = ["DoGlobalIteration(0) is not issued with shipped listeners attached (the statement speaks of the new trials of a call)",
                "matplotlib runs with the Agg backend; figures are closed after each run"]
 CHUNK = 2
